@@ -105,9 +105,9 @@ def move_staticmethod_static_scope(source: str, preserve: Collection[str]) -> st
 
     attributes_to_preserve = set()
     for name in preserve:
-        if "." in name:
-            *_, property_name = name.split(".")
-            attributes_to_preserve.add(property_name)
+        # Names of attributes that other files access are preserved by their own name
+        *_, property_name = name.split(".")
+        attributes_to_preserve.add(property_name)
 
     class_function_names = set()
     class_attribute_accesses = set()
